@@ -624,6 +624,20 @@ class NAHooks(Hooks):
                     raise _np_err(e)
                 return wrap(res, promote(a.dt, b.dt))
             return cross
+        if name == 'einsum':
+            def einsum(subs, *ops, **k):
+                if not isinstance(subs, str) or k:
+                    raise Undecided('np.einsum form')
+                ops = [na_of(o) for o in ops]
+                try:
+                    res = _np.einsum(subs, *[H.ratify(o.a) for o in ops])
+                except (ValueError, TypeError) as e:
+                    raise _np_err(e)
+                dt = ops[0].dt
+                for o in ops[1:]:
+                    dt = promote(dt, o.dt)
+                return wrap(res, dt)
+            return einsum
         if name in ('dot', 'vdot', 'inner', 'outer', 'tensordot', 'matmul'):
             def dot(a, b, *r, **k):
                 a, b = na_of(a), na_of(b)
@@ -728,6 +742,31 @@ class NAHooks(Hooks):
                     a = na_of(a)
                 return I.cmp1(cop, a, b, None)
             return cmpf
+        if name in ('argwhere', 'flatnonzero', 'nonzero', 'count_nonzero'):
+            def nz(v, **k):
+                v = na_of(v)
+                mask = _np.empty(v.a.shape, dtype=bool)
+                for idx in _np.ndindex(*v.a.shape):
+                    x = v.a[idx]
+                    if is_scalar(x) and not isinstance(x, bool):
+                        x = I.truth_value(I.compare1(ast.NotEq(), x, 0, None)
+                                          if hasattr(I, 'compare1') else
+                                          not to_rat(x).is_zero(), None)
+                    mask[idx] = bool(I.truth_value(x, None))
+                res = getattr(_np, name)(mask)
+                if name == 'count_nonzero':
+                    return int(res)
+                if isinstance(res, tuple):
+                    return tuple(NA(objarr(r.tolist()), DT('int64'))
+                                 for r in res)
+                return NA(objarr(res.tolist()) if res.size else
+                          _np.empty(res.shape, dtype=object), DT('int64'))
+            return nz
+        if name == 'sort':
+            def srt(v, axis=-1, **k):
+                v = na_of(v)
+                return NA(H.sorted_array(I, v.a, axis), v.dt)
+            return srt
         if name == 'arange':
             def ar(*a, **k):
                 a = [_const(x) for x in a]
@@ -774,6 +813,32 @@ class NAHooks(Hooks):
             if v is None:
                 raise Undecided('read of an uninitialised array entry')
             out[idx] = to_rat(v) if is_scalar(v) else v
+        return out
+
+    def order(self, I, x, y):
+        """Sign of x - y (decided through `maxmin`; an undecided order
+        raises)."""
+        x, y = to_rat(x), to_rat(y)
+        if (x - y).is_zero():
+            return 0
+        m = self.maxmin(I, 'max', x, y)
+        if m is x or (isinstance(m, Rat) and (m - x).is_zero()):
+            return 1
+        if m is y or (isinstance(m, Rat) and (m - y).is_zero()):
+            return -1
+        raise Undecided('order of %r and %r' % (x, y))
+
+    def sorted_array(self, I, a, axis=-1):
+        import functools
+        key = functools.cmp_to_key(lambda x, y: self.order(I, x, y))
+        if axis is None:
+            return objarr(sorted(a.ravel().tolist(), key=key))
+        out = a.copy()
+        moved = _np.moveaxis(out, axis, -1)
+        for idx in _np.ndindex(*moved.shape[:-1]):
+            vals = sorted(moved[idx].tolist(), key=key)
+            for k, v in enumerate(vals):
+                moved[idx + (k,)] = v
         return out
 
     def maxmin(self, I, name, x, y):
@@ -887,6 +952,12 @@ class NAHooks(Hooks):
             return Builtin('np.linalg.norm',
                            lambda v, ord=None, **k: self.linalg_norm(
                                I, na_of(v), ord, **k))
+        if isinstance(obj, ModuleV) and obj.name == 'np.linalg' and \
+                name == 'svd':
+            return Builtin('np.linalg.svd',
+                           lambda v, full_matrices=True, compute_uv=True,
+                           **k: self.linalg_svd(I, na_of(v), full_matrices,
+                                                compute_uv))
         if isinstance(obj, DT):
             d = obj.d
             if name == 'shape':
@@ -913,6 +984,59 @@ class NAHooks(Hooks):
         if isinstance(obj, NA):
             return self.na_attr(I, obj, name)
         return NotImplemented
+
+    def linalg_svd(self, I, v, full_matrices=True, compute_uv=True):
+        """Singular value decomposition of stacks of 2 x 2 real matrices.
+        Singular values: the closed form
+            s = sqrt((S +- sqrt(S^2 - 4 D^2)) / 2),
+            S = sum of the squared entries, D = the determinant;
+        factors U, Vt: only for diagonal matrices whose entries have a
+        decided order (signed permutation matrices)."""
+        from . import posalg as PA
+        a = self.ratify(v.a)
+        if a.ndim < 2 or a.shape[-2:] != (2, 2) or v.dt.d.kind != 'f':
+            raise Undecided('np.linalg.svd of shape %r (only stacks of real '
+                            '2 x 2 matrices are modelled)' % (a.shape,))
+        signs = getattr(self, 'signs', None)
+        lead = a.shape[:-2]
+        S_ = _np.empty(lead + (2,), dtype=object)
+        U = _np.empty(lead + (2, 2), dtype=object)
+        Vt = _np.empty(lead + (2, 2), dtype=object)
+        zero, one = Rat.const(0), Rat.const(1)
+        for idx in _np.ndindex(*lead):
+            m = a[idx]
+            p, q, r, t = m[0, 0], m[0, 1], m[1, 0], m[1, 1]
+            diag = q.is_zero() and r.is_zero()
+            if diag:
+                try:
+                    sp_, st = self.order(I, p, zero), self.order(I, t, zero)
+                    ap, at = p * sp_, t * st
+                    first = self.order(I, ap, at) >= 0
+                except Undecided:
+                    diag = False
+            if diag:
+                # A = U diag(s) Vt with signed unit vectors
+                cols = [(0, ap, sp_), (1, at, st)]
+                if not first:
+                    cols.reverse()
+                for k, (j, sv, sg) in enumerate(cols):
+                    S_[idx + (k,)] = sv
+                    for i in range(2):
+                        U[idx + (i, k)] = (one * (sg if sg else 1)
+                                           if i == j else zero)
+                        Vt[idx + (k, i)] = one if i == j else zero
+                continue
+            if compute_uv:
+                raise Undecided('np.linalg.svd factors of a matrix that is '
+                                'not diagonal with ordered entries')
+            S2 = p * p + q * q + r * r + t * t
+            D = p * t - q * r
+            inner = PA.root(S2 * S2 - 4 * D * D, 2, signs)
+            S_[idx + (0,)] = PA.root((S2 + inner) / 2, 2, signs)
+            S_[idx + (1,)] = PA.root((S2 - inner) / 2, 2, signs)
+        if not compute_uv:
+            return NA(S_, v.dt)
+        return (NA(U, v.dt), NA(S_, v.dt), NA(Vt, v.dt))
 
     def linalg_norm(self, I, v, ord=None, **k):
         raise Undecided('np.linalg.norm (no model in this rule set)')
@@ -959,6 +1083,10 @@ class NAHooks(Hooks):
             return Builtin(name, m)
         if name == 'copy':
             return Builtin('copy', lambda *x, **k: NA(a.copy(), obj.dt))
+        if name == 'sort':
+            def sort(axis=-1, **k):
+                a[...] = self.sorted_array(I, a, axis)
+            return Builtin('sort', sort)
         if name == 'astype':
             def astype(dt, order=None, casting='unsafe', copy=True, **k):
                 dt = as_dt(dt)
